@@ -3,17 +3,19 @@
 # Confirms a seeded change in a scratch worktree: builds, package tests pass, demo fails with it and passes without.
 name=$1; out=$2; pkg=$3; demo=$4; rx=$5
 export GOFLAGS=-mod=mod GOPROXY=off GOSUMDB=off GOTOOLCHAIN=local
+# the test servers of the repository bind fixed ports (8900-8913): every test run gets its own network namespace
+NS="unshare -rn sh -c"
 wt=/tmp/confirm-$name
 git -C /repo worktree remove --force $wt 2>/dev/null; rm -rf $wt
 git -C /repo worktree add --detach $wt HEAD >/dev/null 2>&1 || exit 2
 cd $wt
 git apply $out/patch.diff || { echo "PATCH DOES NOT APPLY"; exit 2; }
 if go build ./... 2>&1 | tail -3 | grep -q .; then echo "BUILD FAILED"; else echo "build: ok"; fi
-r=1; for i in 1 2 3; do if go test -p 1 -count=1 ${SKIP:+-skip "$SKIP"} ./${PKGTEST:-$pkg}/ >/tmp/confirm-$name.pkg.log 2>&1; then r=0; break; fi; done
+r=1; for i in 1 2 3; do if $NS "ip link set lo up; go test -p 1 -count=1 ${SKIP:+-skip '$SKIP'} ./${PKGTEST:-$pkg}/" >/tmp/confirm-$name.pkg.log 2>&1; then r=0; break; fi; done
 echo "package tests with change: $( [ $r = 0 ] && echo pass || (echo FAIL; tail -5 /tmp/confirm-$name.pkg.log) )"
 mkdir -p $pkg; cp $out/$demo $pkg/
-if go test -p 1 -count=1 -run "$rx" ./$pkg/ >/tmp/confirm-$name.demo1.log 2>&1; then echo "demo with change: PASSES (unexpected)"; else echo "demo with change: fails (expected)"; fi
+if $NS "ip link set lo up; go test -p 1 -count=1 -run '$rx' ./$pkg/" >/tmp/confirm-$name.demo1.log 2>&1; then echo "demo with change: PASSES (unexpected)"; else echo "demo with change: fails (expected)"; fi
 git apply -R $out/patch.diff
-r=1; for i in 1 2 3; do if go test -p 1 -count=1 -run "$rx" ./$pkg/ >/tmp/confirm-$name.demo2.log 2>&1; then r=0; break; fi; done
+r=1; for i in 1 2 3; do if $NS "ip link set lo up; go test -p 1 -count=1 -run '$rx' ./$pkg/" >/tmp/confirm-$name.demo2.log 2>&1; then r=0; break; fi; done
 echo "demo without change: $( [ $r = 0 ] && echo passes || (echo FAILS; tail -5 /tmp/confirm-$name.demo2.log) )"
 cd /; git -C /repo worktree remove --force $wt; rm -f /tmp/confirm-$name.*.log
